@@ -350,6 +350,24 @@ pub fn replay_rows<P: PT, C: Coll<P>>(
                 }
             }
             if !ok {
+                // the observation-relative facets of the state that was actually reached (C15, C16)
+                let last = row["h"].as_array().and_then(|h| h.last()).cloned().unwrap_or(json!({"a": "PathReplay"}));
+                if let Some(d) = tree_wf(&c.tree(ctx)) {
+                    rep.mismatch_count += 1;
+                    let n = rep.per_kind.entry("wf/path".into()).or_default();
+                    *n += 1;
+                    if *n <= 4 {
+                        rep.mismatches.push(json!({"kind": "wf", "h": row["h"], "e": last, "expected": "well-formed trie", "got": d}));
+                    }
+                }
+                if let Some(d) = partition_violation(&c.snap()) {
+                    rep.mismatch_count += 1;
+                    let n = rep.per_kind.entry("partition/path".into()).or_default();
+                    *n += 1;
+                    if *n <= 4 {
+                        rep.mismatches.push(json!({"kind": "partition", "h": row["h"], "e": last, "expected": "partition", "got": d}));
+                    }
+                }
                 if let Some(side) = side.as_mut() {
                     // the contents the path should have produced, for the state-relative facets
                     let mut ee = vec![];
